@@ -228,7 +228,15 @@ def _sbuf_append(ctx, prog, fname):
     sn0, sz0 = Lin({K_SN: 1}), Lin({K_SZ: 1})
     exts = list(f.calls("sbuf_extend"))
     if not exts:
-        ctx.violation(fname, "capacity check", "no call of sbuf_extend")
+        via = [c for c in f.calls() if c.get("fn") and prog.resolve(f, c["fn"]) is not None and
+               prog.resolve(f, c["fn"]).file == f.file and
+               prog.cg.reaches(prog.resolve(f, c["fn"]), ["sbuf_extend", "malloc"], stop=set())]
+        if via:
+            ctx.inconclusive(fname, "capacity check",
+                             "the buffer is grown through %s(), whose new size is not summarised" % via[0]["fn"],
+                             f.loc(via[0]))
+        else:
+            ctx.violation(fname, "capacity check", "no call of sbuf_extend")
         return
     if len(exts) > 1:
         ctx.inconclusive(fname, "capacity check", "more than one sbuf_extend call")
@@ -1705,7 +1713,7 @@ def _pointee_size(prog, ty):
     return None
 
 
-def _path_prove_store(prog, f, st, alloc, esz):
+def _path_prove_store(prog, f, st, alloc, esz, mem=None):
     """0 <= index < allocated elements for the store `a[idx] = ..`, over every path to it with
     the values of small same-file helpers (led_pos ..) substituted per exit: PROVEN, "REFUTED"
     (a path without unknowns violates it) or None."""
@@ -1721,21 +1729,33 @@ def _path_prove_store(prog, f, st, alloc, esz):
         if any(x["k"] in ("while", "for", "do") for x in g.walk()) or list(stores(g.body)):
             return None
         return g
+    from ..bounds import struct_invariants
+    inv0 = struct_invariants(f)
     try:
-        sts = path_states(f, st["id"], inline=inline, max_paths=3000)
+        sts = path_states(f, st["id"], inline=inline, max_paths=3000, init_hyps=inv0,
+                          header_hyps=(lambda subst: struct_invariants(f, subst)) if inv0 else None)
     except OverflowError:
         return None
     if not sts:
         return None
     verdict = PROVEN
     for subst, hyps, items in sts:
-        byid = {f.nodes[x[1]]["id"]: x[2] for x in items if x[0] == "br"}
-        _lin._COND_RES[0] = byid
-        try:
-            idx = linearize(strip_casts(st["l"]["idx"]), subst)
-            E = linearize(size_e, subst)
-        finally:
-            _lin._COND_RES[0] = None
+        lin_ = subst["__linfn__"]
+        E = lin_(size_e)
+        if mem is not None:
+            off = lin_(mem[0]) if mem[0] is not None else Lin()
+            ln_ = lin_(mem[1])
+            if off is None or ln_ is None or E is None:
+                return None
+            a = prove_le(Lin(k=0), off, hyps + nonneg_atoms([h_ for h_ in hyps if not isinstance(h_, tuple)] + [off]))
+            b = prove_le(off.scale(esz) + ln_, E, hyps)
+            if a != PROVEN or b != PROVEN:
+                if "__havoc__" in subst or "__callhavoc__" in subst:
+                    verdict = None
+                elif verdict == PROVEN:
+                    verdict = "REFUTED"
+            continue
+        idx = lin_(strip_casts(st["l"]["idx"]))
         if idx is None or E is None:
             return None
         flat = [h_ for h_ in hyps if not isinstance(h_, tuple)]
@@ -1789,6 +1809,7 @@ def rule_B3(ctx):
         for an, name, E, esz in allocs:
             exc = B3_EXCEPTIONS.get((f.name, name)) or B3_EXCEPTIONS.get((f.name, "*"))
             writes = []
+            mem_nodes = {}
             for n, lv, op, rhs in stores(f.body):
                 if op == "init" or not f.cfg.dominates(an, n):
                     continue
@@ -1828,6 +1849,9 @@ def rule_B3(ctx):
                     writes.append((c, None, "%s into %s" % (c["fn"], name)))
                 else:
                     writes.append((c, off + ln, "%s into %s" % (c["fn"], name)))
+                if c["fn"] in ("memcpy", "memmove", "memset"):
+                    d_ = strip_casts(c["args"][0])
+                    mem_nodes[c["id"]] = (strip_casts(d_["r"]) if d_["k"] == "bin" else None, strip_casts(c["args"][2]))
             if not writes:
                 continue
             for n, ext, desc in writes:
@@ -1838,6 +1862,10 @@ def rule_B3(ctx):
                 if v != PROVEN and n["k"] == "bin" and n["l"]["k"] == "sub":
                     # second engine: all paths to the store, small helpers of the file summarised
                     pv = _path_prove_store(prog, f, n, an, esz)
+                    if pv == PROVEN:
+                        v = PROVEN
+                if v != PROVEN and n["id"] in mem_nodes:
+                    pv = _path_prove_store(prog, f, n, an, esz, mem=mem_nodes[n["id"]])
                     if pv == PROVEN:
                         v = PROVEN
                 if v == PROVEN:
